@@ -21,6 +21,11 @@ EPOCH = _dt.datetime(1970, 1, 1)
 
 ID_POOL = [0, 1, 2, 3, 'a', 'b', 1.0, True, None, {'k': 1}, {'k': 2}, {'k': 1, 'j': 'a'},
            {'j': 'a', 'k': 1}]
+# datetime _ids that are distinct as given and equal once normalised (UTC, milliseconds)
+_D0 = _dt.datetime(2021, 6, 15, 12, 30, 0, 1000)
+DATE_IDS = [_D0, _D0.replace(microsecond=1500),
+            _D0.replace(hour=14, tzinfo=_dt.timezone(_dt.timedelta(hours=2))),
+            {'k': _D0.replace(microsecond=1999)}, {'k': _D0}]
 
 
 def _dt_us(dt):
@@ -35,7 +40,8 @@ def us_to_dt(us):
 class HistGen(object):
     """weights select which kinds of operation a property's histories stress"""
 
-    def __init__(self, rng, oids, weights=None, ttl=False, indexes=True, embedded_ids=True):
+    def __init__(self, rng, oids, weights=None, ttl=False, indexes=True, embedded_ids=True,
+                 date_ids=False):
         self.r = rng
         self.oids = oids
         self.g = gen.Gen(rng, oids)
@@ -44,6 +50,8 @@ class HistGen(object):
         self.ttl = ttl
         self.indexes = indexes
         self.ids = [x for x in ID_POOL if embedded_ids or not isinstance(x, dict)]
+        if date_ids:
+            self.ids = self.ids + DATE_IDS
         self.w = dict(insert_one=18, insert_many=6, update_one=14, update_many=8, replace_one=8,
                       delete_one=5, delete_many=3, find=4, count=3, distinct=2,
                       create_index=6 if indexes else 0, drop_index=1 if indexes else 0,
